@@ -481,6 +481,15 @@ def _k(isas, forms, symptom, extra=None):
 
 
 KNOWN = {
+    "mcore-jsri-opcode": ("M-CORE JSRI assembles to JMPI's opcode 70xx (Motorola: 7Fxx); tests/t_mcore/t_mcore.ori asserts the "
+                          "wrong byte, so the repair would have to edit the test suite",
+                          _k(("MCORE",), ("JSRI",), "instruction set prescribes")),
+    "f2mc8-callv-opcode": ("F2MC-8L CALLV #n assembles to B8+n, the opcode of BBS dir:n (Fujitsu: E8+n); asserted by "
+                           "tests/t_f2mc8l", _k(("F2MC8L",), ("CALLV",), "instruction set prescribes")),
+    "hmcs400-brl-jmpl-call-opcode": ("HMCS400 BRL/JMPL/CALL assemble to 270/250/260+p, the opcodes of LAMR/LAR/REDD "
+                                     "(Hitachi: 170/150/160+p); asserted by tests/t_hmcs400",
+                                     _k(("HMCS400-HD614023", "HMCS400-HD614081"), ("BRL", "JMPL", "CALL"),
+                                        "instruction set prescribes")),
     "4004-isz-page": ("4004/4040 ISZ compares its target with the page of PC+1 instead of PC+2",
                       _k(("4004", "4040"), ("ISZ r,a",), "ISZ r,a")),
     "4004-jcn-forward-page": ("4004/4040 JCN at words 254/255 of a page rejects a forward label in pass 1",
